@@ -23,7 +23,8 @@ RULE = ('seeded configurations: sine-velocity trajectories sampled at 50..500 ms
         'clustered; time_step 0.2..5 s; both altitude modes; 12..80 grid points; non-trivial = any case with bias walk, scale/misalignment, '
         'off-grid epochs or 2-D mode (the tests use bias + white noise, on-grid epochs, statistical thresholds); distinct = distinct seeds'
         ' Round 3: every sample of every sensor in [first grid time, last input time) must be among the measurement blocks of the estimate (conservation), epochs of two receivers equal to 1 ulp but not bitwise.'
-        ' Round 4: a third of the sensors report a full (correlated) covariance.')
+        ' Round 4: a third of the sensors report a full (correlated) covariance.'
+        ' Round 5: sensors listed in any order.')
 ASSUMPTIONS = ['the reference conditions the joint Gaussian in one shot (Cholesky of the full innovation covariance); agreement demanded to '
                '1e-5 of the reported standard deviation, times cond/1e9 beyond that conditioning (prototype agreement 1e-13; worst seen in calibration 2.3e-7 at cond 2.5e9); cases whose innovation covariance has cond > 1e10 are '
                'counted as ill-conditioned and not decided', 'measurement rows are attached to the grid row at or before their epoch, which is '
